@@ -480,6 +480,18 @@ func (filters) Execute(scAny any, keepLog bool) *core.Outcome {
 			var wantSeq []string
 			call := 0
 			replaced := 0
+			// One parser in five answers every unit with the very same slice (a parser is free to
+			// keep and reuse what it returns): the Demuxer must not write into it.
+			var shared []*astits.DemuxerData
+			var sharedKeys []string
+			if p.Seed%5 == 0 {
+				for i := 0; i < 2+p.Seed%2; i++ {
+					d := &astits.DemuxerData{PID: 0x1ff0, PES: &astits.PESData{Data: []byte{0xee, byte(i), byte(p.Seed)}, Header: &astits.PESHeader{StreamID: 0xbf}}}
+					shared = append(shared, d)
+					sharedKeys = append(sharedKeys, core.Dump(d))
+				}
+				out.Probe("replacer-reusing-its-slice")
+			}
 			repl := func(ps []*astits.Packet) ([]*astits.DemuxerData, bool, error) {
 				k := call
 				call++
@@ -499,6 +511,9 @@ func (filters) Execute(scAny any, keepLog bool) *core.Outcome {
 					}
 				}
 				replaced++
+				if shared != nil {
+					return shared, true, nil
+				}
 				n := (p.Seed + k) % 4
 				var ds []*astits.DemuxerData
 				for i := 0; i < n; i++ {
@@ -518,7 +533,9 @@ func (filters) Execute(scAny any, keepLog bool) *core.Outcome {
 						}
 					}
 				}
-				if isRepl {
+				if isRepl && shared != nil {
+					wantSeq = append(wantSeq, sharedKeys...)
+				} else if isRepl {
 					n := (p.Seed + gi) % 4
 					for i := 0; i < n; i++ {
 						wantSeq = append(wantSeq, core.Dump(&astits.DemuxerData{PID: g.pid, PES: &astits.PESData{Data: []byte{byte(gi), byte(i), byte(p.Seed)}, Header: &astits.PESHeader{StreamID: 0xbf}}}))
